@@ -4,6 +4,7 @@ use std::io::Write;
 
 pub mod calendar;
 pub mod duration;
+pub mod durtext;
 pub mod epoch;
 
 pub fn salt(prop: &str) -> u64 {
@@ -21,6 +22,8 @@ pub fn inputs(prop: &str, r: &mut Rng, n: usize, tier: &str, out: &mut dyn Write
         "C02" => duration::inputs_c02(r, n, tier, out),
         "C03" => duration::inputs_c03(r, n, tier, out),
         "C14" => duration::inputs_c14(r, n, tier, out),
+        "C11" => durtext::inputs_c11(r, n, tier, out),
+        "C13D" => durtext::inputs_c13d(r, n, tier, out),
         "C08" => calendar::inputs_c08(r, n, tier, out),
         "C09" => calendar::inputs_c09(r, n, tier, out),
         "C04" => epoch::inputs_c04(r, n, tier, out),
@@ -46,6 +49,9 @@ pub fn exec(op: &str, args: &[&str]) -> Option<String> {
     if let Some(r) = calendar::exec(op, args) {
         return Some(r);
     }
+    if let Some(r) = durtext::exec(op, args) {
+        return Some(r);
+    }
     None
 }
 
@@ -53,4 +59,5 @@ pub fn exec(op: &str, args: &[&str]) -> Option<String> {
 pub fn dump_consts(m: &mut serde_json::Map<String, serde_json::Value>) {
     epoch::dump_consts(m);
     calendar::dump_consts(m);
+    durtext::dump_consts(m);
 }
